@@ -343,6 +343,28 @@ class Generator:
                     raise GenError(f'lost-anchor: for-loop #{k} in {u.fnpath}')
                 add_edit(fl[k]['iter'][0], fl[k]['iter'][0], f'{name}: ', 'RFOR')
                 applied.append(f'RFOR loop#{k} ghost iterator {name}')
+            elif kind == 'RFORC':
+                # `for i in A..B { BODY }`  ->  `{ let mut i__n = A; let i__end = B; while i__n < i__end INV { let i = i__n; i__n += 1; BODY } }`
+                # (the increment comes first, so a `continue` in BODY behaves as in the for loop; `i__n < i__end` excludes
+                # overflow of the increment). Needed because the installed Verus rejects `continue` inside `for`.
+                k = int(rw[1])
+                fl = [l for l in fn['loops'] if inside(l['span'], span)]
+                if k >= len(fl) or fl[k]['kind'] != 'for':
+                    raise GenError(f'lost-anchor: for-loop #{k} in {u.fnpath}')
+                l = fl[k]
+                var = src[l['pat'][0]:l['pat'][1]].decode().strip()
+                itxt = src[l['iter'][0]:l['iter'][1]].decode()
+                m = re.fullmatch(r'\s*(.+?)\s*\.\.\s*(.+?)\s*', itxt, re.S)
+                if not re.fullmatch(r'\w+', var) or not m or '..' in m.group(1) or m.group(2).startswith('='):
+                    raise GenError(f'unsupported: RFORC needs `for <ident> in A..B` in {u.fnpath}')
+                a_txt, b_txt = m.group(1), m.group(2)
+                if src[l['body'][0]:l['body'][0] + 1] != b'{':
+                    raise GenError(f'unsupported: for-loop body of {u.fnpath} is not a block')
+                # header `for i in A..B ` (everything before the body) is replaced; loop-spec splice for this loop goes right after it
+                add_edit(l['span'][0], l['body'][0], f'{{ let mut {var}__n = {a_txt}; let {var}__end = {b_txt}; while {var}__n < {var}__end ', 'RFORC')
+                deref_bodies[l['body'][0] + 1] = f' let {var} = {var}__n; {var}__n += 1;'
+                add_edit(l['body'][1], l['body'][1], ' }', 'RFORC')
+                applied.append(f'RFORC loop#{k}: for {var} in {a_txt}..{b_txt} -> while with leading increment')
             elif kind == 'RDEREF':
                 # `for &x in E { B }` -> `for x__r in E { let x = *x__r; B }` (the reference pattern of a Copy item spelled out;
                 # Verus does not take `&` patterns in `for`)
